@@ -18,20 +18,22 @@ import (
 //
 // alphabet  request(key on m0) | request(key on m1) | reset m0's connections | m0 down | m0 up |
 //           move slot group g0 m0->m1 | move slot group g1 m0->m1 (m0 may end with no slots) |
-//           refresh round (virtual 5 s) | periodic refresh (virtual 2 min)
+//           refresh round (virtual 5 s) | periodic refresh (virtual 2 min) | the other nodes start listing m1 as "fail?"
 // bound     depth (quick 5, thorough 6); default schedule, random seed choice rotating fairly
 // oracle    a request whose owner is reachable gets the single-server reply; errors only while the owner is
 //           down; after a layout change, once a request was redirected and two refresh rounds passed, later
 //           requests are not redirected any more
 // ---------------------------------------------------------------------------
 
-var c07ops = []string{"req-m0", "req-m1", "reset-m0", "m0-down", "m0-up", "move-g0", "move-g1", "refresh-round", "periodic-refresh"}
+var c07ops = []string{"req-m0", "req-m1", "reset-m0", "m0-down", "m0-up", "move-g0", "move-g1", "refresh-round", "periodic-refresh", "m1-suspected"}
 
 type c07case struct {
 	Ops []int `json:"ops"`
 	// Hostnames: the nodes announce (and the proxy dials) host names, so the address a connection reports
 	// after name resolution differs from the address the proxy knows the backend by.
 	Hostnames bool `json:"hostnames,omitempty"`
+	// Rot shifts the fair rotation of the proxy's random host picks (which node a refresh asks)
+	Rot int `json:"rot,omitempty"`
 }
 
 func (c c07case) String() string {
@@ -48,6 +50,9 @@ func (c c07case) String() string {
 func c07run(cs c07case) (sig, detail string) {
 	body := func() {
 		vrand.Fair()
+		for i := 0; i < cs.Rot; i++ {
+			vrand.Intn(2)
+		}
 		cl := cluster.New(2, 0, 4)
 		m0, m1 := cl.Masters()[0], cl.Masters()[1]
 		cl.Owner[0], cl.Owner[1], cl.Owner[2], cl.Owner[3] = m0, m0, m1, m1
@@ -93,6 +98,9 @@ func c07run(cs c07case) (sig, detail string) {
 					redirectSeen, rounds = false, 0
 					roundsSinceMove[1] = 0
 				}
+			case "m1-suspected":
+				// the other nodes flag m1 as possibly failing ("fail?") from now on; it is alive and owns its slots
+				m1.Suspected = true
 			case "refresh-round":
 				s.RefreshRound()
 				if redirectSeen {
@@ -194,11 +202,19 @@ func c07histories(env sched.Env) *sched.Report {
 					rep.Complete = false
 					return
 				}
-				for _, hn := range []bool{false, true} {
+				for vi, hn := range []bool{false, true, false} {
 					if hn && len(ops) > depth-1 {
 						continue // the host-name variant is explored one level less deep
 					}
 					cs := c07case{Ops: append([]int{}, ops...), Hostnames: hn}
+					if vi == 2 {
+						// third variant, for histories under the standing suspicion only: the other rotation of the
+						// random host picks (the refresh asks the other node)
+						if c07ops[ops[0]] != "m1-suspected" {
+							continue
+						}
+						cs.Rot = 1
+					}
 					sched.Progress(cs)
 					sig, detail := c07run(cs)
 					rep.Execs++
@@ -220,23 +236,28 @@ func c07histories(env sched.Env) *sched.Report {
 			return
 		}
 		for op := range c07ops {
+			if c07ops[op] == "m1-suspected" && len(ops) > 0 {
+				continue // a standing condition of the environment: only as the first step of a history
+			}
 			rec(append(ops, op))
 		}
 	}
 	rec(nil)
 	// deeper convergence histories: layout change, first redirect, k refresh rounds, request
-	for _, h := range [][]int{{5, 0, 7, 7, 0}, {5, 6, 0, 7, 7, 0}, {5, 6, 0, 8, 8, 0, 0}, {6, 0, 7, 7, 7, 0}, {3, 4, 0, 2, 0, 0}, {3, 0, 4, 0, 0}, {2, 0, 2, 0, 0}, {3, 5, 4, 0, 7, 7, 0}} {
+	for _, h := range [][]int{{9, 5, 0, 7, 7, 0}, {9, 5, 6, 0, 8, 0, 0}, {5, 0, 7, 7, 0}, {5, 6, 0, 7, 7, 0}, {5, 6, 0, 8, 8, 0, 0}, {6, 0, 7, 7, 7, 0}, {3, 4, 0, 2, 0, 0}, {3, 0, 4, 0, 0}, {2, 0, 2, 0, 0}, {3, 5, 4, 0, 7, 7, 0}} {
 		n++
 		if n%env.NShards != env.Shard {
 			continue
 		}
-		cs := c07case{Ops: h}
-		sig, detail := c07run(cs)
-		rep.Execs++
-		sched.Progress(nil)
-		if sig != "" && !sigs[sig] {
-			sigs[sig] = true
-			rep.Violations = append(rep.Violations, sched.CustomViolation("C07/histories", sig, detail, cs))
+		for rot := 0; rot < 2; rot++ {
+			cs := c07case{Ops: h, Rot: rot}
+			sig, detail := c07run(cs)
+			rep.Execs++
+			sched.Progress(nil)
+			if sig != "" && !sigs[sig] {
+				sigs[sig] = true
+				rep.Violations = append(rep.Violations, sched.CustomViolation("C07/histories", sig, detail, cs))
+			}
 		}
 	}
 	rep.States = rep.Execs
